@@ -665,6 +665,12 @@ TARGETS = [
          enums=[dict(rust="StoreKind", file="src/reader/directory_pack/entry_store.rs", lean="SrcStoreKind", types={}, declare=False)],
          cfg=dict(params=[("bs", "Bytes"), ("layoutParse", "Bytes → Outcome (L × Bytes)")], ret="L", outcome=True, implicit="{L : Type}",
                   read_calls={"StoreKind::parse": "storeKindParse bs", "Layout::parse": "layoutParse bs"})),
+    # ---- the head of Layout::parse (the statements before the properties are split into common part and variants)
+    dict(name="layoutParseHead", group="Parse", file="src/reader/directory_pack/layout/mod.rs", fn="parse", after=r"impl Parsable for Layout",
+         prefix_until=(r"let mut common_properties", ["entry_count", "is_entry_checked", "entry_size", "variant_count", "raw_layout"]),
+         cfg=dict(params=[("bs", "Bytes")], ret="(Nat × Bool × Nat × Nat × List (Nat × SrcPropertyKind × List UInt8))", outcome=True,
+                  reads={"read_u8": "takeLE bs 1", "read_u16": "takeLE bs 2"},
+                  read_calls={"Count<u32>::parse": "takeLE bs 4", "Count<u8>::parse": "takeLE bs 1", "RawLayout::parse": "rawLayoutParse bs"})),
 ]
 
 
@@ -910,6 +916,13 @@ def main():
             for rx in t.get("strip_rx", []):
                 import re as _re2
                 body = _re2.sub(rx, "", body, flags=_re2.S)
+            if t.get("prefix_until"):
+                # only the statements before a marker are translated; the value is the tuple of locals the table names
+                import re as _re3
+                mm = _re3.search(t["prefix_until"][0], body)
+                if not mm:
+                    raise rs2lean.Untranslatable("prefix marker not found: " + t["prefix_until"][0])
+                body = body[:mm.start()] + "\nOk((" + ", ".join(t["prefix_until"][1]) + "))\n"
             decls = apply_enums(t) if t.get("enums") else ""
             if t.get("proto"):
                 acts = proto_actions(body, t.get("select"))
